@@ -90,7 +90,7 @@ def mutate_inventory(inv, rng):
     """returns (description, new JSON value or raw bytes)"""
     inv = json.loads(json.dumps(inv))
     k = rng.choice(["id", "type", "alg", "head", "verkey", "verkeys", "state", "manifest", "created", "user", "message", "fixity", "cdir",
-                    "delkey", "unknown", "nest", "dupkey", "raw", "trunc", "empty", "big", "notjson", "manyver"])
+                    "delkey", "unknown", "nest", "dupkey", "raw", "trunc", "empty", "big", "notjson", "manyver", "padgap", "padgap"])
     vs = list(inv["versions"])
     if k == "id":
         inv["id"] = rng.choice(URIS) if rng.random() < 0.5 else weird(rng)
@@ -109,6 +109,15 @@ def mutate_inventory(inv, rng):
     elif k == "verkeys":
         for v in vs:
             inv["versions"][rng.choice(VERS) + str(rng.randint(0, 9))] = inv["versions"].pop(v)
+    elif k == "padgap":
+        # zero-padded version names with gaps, up to and beyond the largest number the padding allows
+        w = rng.choice([2, 3, 4, 5])
+        lim = 10 ** (w - 1) - 1
+        blk = inv["versions"][vs[-1]]
+        nums = sorted(set([1, rng.randint(2, max(2, lim)), max(1, lim - rng.choice([0, 1, 49, 50, 150])), lim, lim + 1, lim + rng.choice([2, 50, 99, 101])]))
+        nums = [n for n in nums if rng.random() < 0.8] or [1, lim + 1]
+        inv["versions"] = {"v" + str(n).zfill(w): blk for n in nums}
+        inv["head"] = "v" + str(rng.choice(nums)).zfill(w)
     elif k == "manyver":
         blk = inv["versions"][vs[-1]]
         for i in range(rng.choice([50, 400])):
